@@ -17,7 +17,7 @@ for k in sorted(r, key=lambda s: (s.split("-")[0], int(s.split("-")[1]))):
     rows.append(f"| {k} | {title} | {', '.join(m['files'])[:60]} | {'; '.join(cells)} |")
 tab = "\n".join(rows)
 n = len(r)
-ROUNDS_WORD = "nine"
+ROUNDS_WORD = "ten"
 txt = open(f"{V}/tools/design_asbuilt.md").read()
 txt += f"""### 10.8 Seeded changes: which check catches which change
 
@@ -35,7 +35,8 @@ shows only on an unusual but legitimate input or situation; round 7: `Cnn-8`, th
 earlier descriptions listed and interactions of two features, error and clean-up paths and values at
 the edge of their range suggested; round 8: `Cnn-9`, pointed at the way the code uses its libraries
 and at the stand-alone tools; round 9: `Cnn-10`, the same brief with nine earlier descriptions per
-property to stay away from). Each
+property to stay away from; round 10: `Cnn-11`, additionally told which slips had been used for
+*any* property, so that none would be re-used across properties). Each
 was confirmed by me (applies to HEAD, suite still 147 passed, its own `demo.py` exits 0 without
 and 1 with the change — `seeded/<id>/confirm.txt`) and is kept as
 `seeded/<id>/{{patch.diff, demo.py, notes.md, meta.json}}`. `tools/seed_matrix.py` applies each to
@@ -281,6 +282,41 @@ What the seeded changes taught, and what was added to the checks because of them
   label, keygen and keydelete with `--hsm` naming each in turn; C20-10 (first same-size RSA entry
   decides) -> ZSK policies declaring two exponents for one algorithm and size, both listing orders,
   six exponent values (set iteration order decides which is met first).
+* Round 10 (`Cnn-11`): first sweep 4 of 20 reported by their own check with a failing input (C01,
+  C03, C04, C06), 2 through a broken bridge without an input (C11, C14), 14 not at all - 8 of those
+  were reported with a failing input by a neighbouring property's check. Two mutants made behaviour
+  depend on whether debug logging is on (a generator consumed by the debug listing), three used
+  pydantic's `str_strip_whitespace` on different base classes. All twenty are now reported by their
+  own property's check with a failing input. What was added:
+  C02-11/C09-11/C19-11 (blanks stripped from attribute values / data-class strings / token labels)
+  -> C02 signs requests read from KSR *documents* whose request, bundle and key identifiers begin
+  or end with a blank; C09 reads a previous SKR file that publishes another key under "Knext " and
+  lets "Knext" start signing; C19 inventories tokens whose pair labels differ only by a trailing
+  blank, with a KSK configured under the exact label; C05-11 (a data-class validator refuses
+  expiration <= inception while the document is read) -> zero-length and inverted bundles with
+  every timing check off, zero-length bundles under a declared minimum of PT0S, and a refusal
+  during reading is now judged against the documented region instead of stopping the harness;
+  C07-11 (repeated child elements collected with `groupby`) -> bundles whose Key and Signature
+  elements are interleaved in three layouts; C08-11 (`<Protocol>` no longer in the RDATA) -> previous
+  SKRs with a KSK's Protocol, Flags or Algorithm changed after signing (and Protocol tampering in
+  C07); C10-11 (`abs()` on the overlap) -> ceremonies fed a KSR that starts 9.5 days after the
+  previous SKR ends, and gaps of every acceptable overlap's length in C08; C11-11 (`html.escape` in
+  the writer) -> apostrophes, semicolons and `#x27;` in identifiers; C12-11 (= C03-11, `all()` over
+  checks that return None) -> SKRs with one bad signature in a later bundle, refused in every
+  document order; C13-11/C14-11 (debug listing consumes a generator) -> `vlib.debug_logging()`: the
+  loader worker and a third of C14's to-be-signed cases run with the root logger at DEBUG as the
+  tools' `--debug` sets it, invalid documents must still be refused; C15-11 (new `KeyType`
+  member falls through a `match` without default) -> every member of `KeyType` other than RSA/EC,
+  two key classes, five algorithm/hash-mode combinations; C16-11 (configured offsets discarded) ->
+  `valid_from`/`valid_until` written with +02:00, -05:00, +05:30, Z and as YAML timestamps, compared
+  as instants; C17-11 (`is_sep_key` by equality) -> a three-bundle SKR with a revoked KSK, ZSK and
+  KSK columns of each row; C18-11 (configured anchor path wins over `--trustanchor`) -> exports with
+  both given, the command-line file judged; C20-11 (`read(MAX)` then a length test that cannot
+  fire) -> uploads of 1 MiB + 1, 1 MiB + 4 KiB and 1 MiB of valid KSR followed by junk, expected
+  not-OK. A harness bug of mine surfaced on the way (C20's model case took 16 MiB for the loader's
+  cap) and was corrected; a false alarm of mine as well (the inventory prints labels in a padded
+  column, so labels that differ by a trailing blank cannot be told apart in its text: the check now
+  counts pairs and KSK lines instead of comparing label text).
 * Everything else in the {ROUNDS_WORD} rounds was caught by the check as it stood.
 
 ### 10.9 Running it
